@@ -567,7 +567,7 @@ def gen_c16(tier):
 pub fn c16_substr_n%(n)d_%(k)d() {
     substr_case(%(n)d, %(wl)s);
 }
-''' % dict(n=n, k=3 if with_len else 2, tier="quick" if q else "thorough", mem=(8 if n == 0 else 12) if n < 2 else 28, to=900 if n < 2 else 2400, opt="" if n < 2 else " optional=1",
+''' % dict(n=n, k=3 if with_len else 2, tier="quick" if q else "thorough", mem=(8 if n == 0 else 24) if n < 2 else 28, to=900 if n < 2 else 2400, opt="" if n < 2 else " optional=1",
            l=", length = every i64" if with_len else "", unw=max(4 * n + 2, 3), wl="true" if with_len else "false")
     quick_pairs = {(0, 1), (1, 2), (6, 2), (2, 0), (0, 6)}
     for a in range(9):
